@@ -903,6 +903,14 @@ def _single_early_load(body, p):
     return any(isinstance(x, ast.Name) and x.id == p for e in own for x in ast.walk(e))
 
 
+_HELPER_NAMES = set()       # names of the helpers the inliner is working on (a helper that only reads state still has refusals to hoist)
+
+
+def _has_helper_call(e):
+    return bool(_HELPER_NAMES) and any(isinstance(x, ast.Call) and (x.func.attr if isinstance(x.func, ast.Attribute) else
+                                                                    x.func.id if isinstance(x.func, ast.Name) else None) in _HELPER_NAMES for x in ast.walk(e))
+
+
 def _first_call(e):
     """the call whose evaluation completes first when e is evaluated (left-most, inner-most), or None if e contains no call
     on its first-evaluated spine"""
@@ -921,7 +929,7 @@ def _first_call(e):
         for a in list(e.args) + [k.value for k in e.keywords]:
             if isinstance(a, ast.Starred):
                 return None
-            if _atomic(a) or _pure_read(a):
+            if (_atomic(a) or _pure_read(a)) and not _has_helper_call(a):
                 continue                      # reads (incl. state-reading accessor chains) leave nothing behind: the call itself is the first action
             r = _first_call(a)
             if r is not None:
@@ -1269,6 +1277,8 @@ class _Inliner:
 
     def inline_stmts(self, fn, cur_cls):
         changed = False
+        global _HELPER_NAMES
+        _HELPER_NAMES = {n for n, h in self.helpers.items() if h.expr is None}
 
         def block(stmts):
             nonlocal changed
